@@ -6,6 +6,7 @@ import (
 	"bytes"
 	"crypto/ecdsa"
 	"encoding/base64"
+	"encoding/json"
 	"fmt"
 	"reflect"
 	"sort"
@@ -297,4 +298,18 @@ var _ = bytes.NewReader
 // SignAs signs with this identity's key a request that names another identity (a forgery).
 func (id *Ident) SignAs(method, named string, nonce int64, args ...interface{}) (string, error) {
 	return cachedSign(id.Key, method, named, nonce, args...)
+}
+
+// ShortJSON renders any value as JSON with the long hex identities abbreviated (for messages).
+func ShortJSON(v interface{}) string {
+	b, err := json.Marshal(v)
+	if err != nil {
+		return fmt.Sprintf("%v", v)
+	}
+	s := string(b)
+	for _, id := range Identities() {
+		s = strings.ReplaceAll(s, id.NodeID, Short(id.NodeID))
+		s = strings.ReplaceAll(s, id.Wallet, Short(id.Wallet))
+	}
+	return s
 }
